@@ -108,9 +108,25 @@ def token_functions(F):
                         if isinstance(e, ast.Name) and e.id == tp:
                             pos = i
             if pos is None:
-                pos = -1
+                # not returned under its own name: the one position whose declared type is the token's type
+                tty = k.ptypes.get(tp)
+                cand = [i for i, t in enumerate(k.rtype.items) if tty is not None and t == tty]
+                pos = cand[0] if len(cand) == 1 else -1
         out[k.key] = (k, tp, pos)
     return out
+
+
+def _carried_var(w, lp, inner_calls, toks):
+    """Name of the variable whose value at the head of loop `lp` is the pointer the first token call of the body receives."""
+    c = inner_calls[0]
+    k, tp, pos = toks[c.callee.key]
+    a = dict(zip(k.params, c.args)).get(tp)
+    if not isinstance(a, Num):
+        return None
+    for name, v in lp.head_env.items():
+        if isinstance(name, str) and isinstance(v, Num) and v.lin == a.lin:
+            return name
+    return None
 
 
 def rule_randtoken(ctx):
@@ -164,16 +180,25 @@ def rule_randtoken(ctx):
                         break
                     cur = p.lin
                 elif ev.kind == "loopstart":
+                    lp2 = ev.loop
+                    inner = [x for x in w.events if x.kind == "call" and x.callee is not None and x.callee.key in toks and lp2 in x.loops]
+                    if not inner:
+                        continue          # the loop does not touch the pointer: it is the same after the loop
                     tv = get_env_tok(ev.envsnap)
                     if not isinstance(tv, Num) or tv.lin != cur:
-                        bad = (ev, "the pointer held when entering the loop is not the latest one returned: the result of a call was dropped")
-                        break
-                    lp2 = ev.loop
+                        # the loop may carry the pointer in another variable: the one whose loop-head value the first call receives
+                        alt = _carried_var(w, lp2, inner, toks)
+                        tv2 = ev.envsnap.get(alt) if alt else None
+                        if not (isinstance(tv2, Num) and tv2.lin == cur):
+                            bad = (ev, "the pointer held when entering the loop is not the latest one returned: the result of a call was dropped")
+                            break
                     hv = get_env_tok(lp2.head_env) if not is_method else lp2.head_env.get("@" + tokname)
                     if isinstance(hv, Num):
                         cur = hv.lin
             if bad is None:
                 tv = get_env_tok(end.env)
+                if end.kind == "ret" and not is_method:
+                    tv = Num(cur)         # a kernel hands the pointer on through its return value (checked next), whatever the local is called
                 if not isinstance(tv, Num) or tv.lin != cur:
                     bad = (end, "at the end of this path `%s` does not hold the latest pointer returned by the callee: the call's result was "
                                 "not rebound%s" % (tokname, " inside the loop" if end.loops else ""))
@@ -371,13 +396,18 @@ def rule_expo(ctx):
     # decoder shape: (base**c' - 1)/(base - 1) + num_reserved ; deterministic range counter <= num_reserved -> counter
     from .rules_hll import nf, parse_nf
     rets = [n for n in walk_no_nested(c2v.node) if isinstance(n, ast.Return)]
+    from .model import expand_expr
     shapes = [nf(r.value) for r in rets]
+    try:
+        shapes += [nf(expand_expr(ctx.model, c2v, r.value)) for r in rets]      # temporaries resolved
+    except (AnalysisError, RecursionError):
+        pass
     cp = None
     for n in walk_no_nested(c2v.node):
         if isinstance(n, ast.Assign) and isinstance(n.targets[0], ast.Name) and nf(n.value) == parse_nf("counter - num_reserved"):
             cp = n.targets[0].id
     want = parse_nf("(base ** %s - 1.0) / (base - 1.0) + num_reserved" % (cp or "cprime"))
-    ok1 = want in shapes
+    ok1 = want in shapes or parse_nf("(base ** (counter - num_reserved) - 1.0) / (base - 1.0) + num_reserved") in shapes
     ok2 = parse_nf("counter") in shapes
     ctx.ob("expo", c2v, rets[-1] if rets else c2v.node, "%s: geometric-sum decode" % c2v.name,
            "decoded value is (base**c' - 1)/(base - 1) + num_reserved (sum of the expected waiting times 1/p)", ok1)
